@@ -36,6 +36,9 @@ def flavours(ctx):
     return ['vanilla', 'ld', 'dl'] if ctx.tier == 'thorough' else ['vanilla']
 
 
+RESULT_WRITERS = ('myth_create_ex_body', 'myth_create_1', 'myth_entry_point', 'myth_exit_body', 'myth_testcancel_body')
+
+
 def rule1_who(ctx, fl):
     ctx.doc('C12.1', 'call graph over all TUs: free_myth_thread_struct_stack is called only from myth_entry_point_1/_2; '
             'free_myth_thread_struct_desc only from myth_join_1, myth_detach_body, myth_entry_point_1/_2 and '
@@ -68,7 +71,21 @@ def rule1_who(ctx, fl):
                    loc=locs[(callee, caller)])
     ctx.ob('C12.1', 'release functions not address-taken', not taken, 'the release functions are only called directly',
            loc=(taken[0][1] if taken else ''))
-    ctx.floor('C12.1', 7)
+    # the exit value in the record is written only on behalf of the thread itself: at creation (the argument is parked there), by
+    # the entry trampolines with the function's result, and by exit / testcancel of the calling thread.  A writer that acts on another
+    # thread's record (a cancel requester, a joiner) can overwrite the value of a thread that has finished but is not yet reaped.
+    writers = {}
+    for file in files:
+        m = ctx.ssa(file, fl)
+        for fn in m.functions.values():
+            for st in fn.order:
+                if st.op == 'store' and fn.field(st) == TH + 'result':
+                    writers.setdefault(fn.name, st.loc)
+    for wname, wloc in sorted(writers.items()):
+        ctx.ob('C12.1', 'exit value written by %s' % wname, wname in RESULT_WRITERS,
+               'the record\'s result field is written only by %s' % sorted(RESULT_WRITERS), loc=wloc)
+    ctx.ob('C12.1', 'writers of the exit value enumerated', len(writers) >= 4, 'stores to myth_thread.result found', loc='src/myth_sched_func.h')
+    ctx.floor('C12.1', 12)
 
 
 def rule2_order(ctx, v):
@@ -590,6 +607,8 @@ def run(ctx):
 SCHED = 'src/myth_sched_func.h'
 MISC = 'src/myth_misc_func.h'
 MUTANTS = [
+    {'name': 'cancel requester writes the exit value of the target (seed4 C12/m2)', 'expect': 'C12.1',
+     'edits': [(SCHED, "  th->cancelled = 1;\n  myth_spin_unlock_body(&th->lock);", "  th->cancelled = 1;\n  th->result = MYTH_CANCELED;\n  myth_spin_unlock_body(&th->lock);")]},
     {'name': 'detach of a finished thread releases the record twice (seed3 C12/m1)', 'expect': 'C12.7',
      'edits': [(SCHED, "    free_myth_thread_struct_desc(myth_get_current_env(),th);\n    return 0;\n  }\n  //Obtain lock", "    free_myth_thread_struct_desc(myth_get_current_env(),th);\n  }\n  //Obtain lock")]},
     {'name': 'default stacks mapped with a short round-up (seed3 C12/m2)', 'expect': 'C12.4',
